@@ -513,7 +513,6 @@ fn convert_intensity(p: &mut Point) {
 struct Range {
     min: f64,
     max: f64,
-    inv_range: f64,
 }
 
 impl Range {
@@ -559,16 +558,11 @@ impl Range {
     }
 
     fn from_min_max(min: f64, max: f64) -> Result<Self> {
-        let range = max - min;
-        if range < 0.0 {
+        // The negated comparison also rejects NaN limits
+        if !(min <= max) || min.is_infinite() || max.is_infinite() {
             Error::invalid(format!("Found invalid range: min={min}, max={max}"))?;
         }
-        let inv_range = 1.0 / range;
-        Ok(Self {
-            min,
-            max,
-            inv_range,
-        })
+        Ok(Self { min, max })
     }
 
     fn intensity_from_pointcloud(pc: &PointCloud) -> Result<Option<Self>> {
@@ -665,8 +659,19 @@ impl Range {
     #[inline]
     fn normalize(&self, value: f64) -> f32 {
         let clamped = value.clamp(self.min, self.max);
-        let normalized = (clamped - self.min) * self.inv_range;
-        normalized as f32
+        // Halve all operands if the range itself is not representable (e.g. f64::MIN..f64::MAX)
+        let scale = if (self.max - self.min).is_finite() {
+            1.0
+        } else {
+            0.5
+        };
+        let range = self.max * scale - self.min * scale;
+        if range > 0.0 {
+            ((clamped * scale - self.min * scale) / range) as f32
+        } else {
+            // Degenerate range with min == max
+            0.0
+        }
     }
 }
 
